@@ -68,7 +68,9 @@ pub fn images(e: End, nbits: usize, seed: u64, thorough: bool) -> Vec<Image> {
     out.push(Image { name: "codes-mixed".into(), bytes: code_stream(e, nbits, &mut r2, &MIX).to_bytes(e, 128) });
     // long zero runs of every residue, each terminated by a one
     let mut z = Bits::new();
-    let runs = [0usize, 1, 7, 8, 9, 15, 16, 17, 31, 33, 63, 64, 65, 70, 127, 129];
+    // the longest runs first: they must fit even in the shortest images (a run has to cover a whole
+    // aligned zero word of every reader, starting from an unaligned position)
+    let runs = [129usize, 1, 127, 0, 70, 7, 8, 9, 15, 16, 17, 31, 33, 63, 64, 65];
     let mut i = 0;
     while z.len() < nbits {
         z.push_unary(runs[i % runs.len()] as u64);
